@@ -1103,6 +1103,59 @@ fn tiny_part_cubic_space(ctx: &Ctx) {
     );
 }
 
+/// cubics a ( ( x + s )^3 + t ): b^2 = 3 a c holds exactly ( the first Cardano discriminant vanishes ) while the second does not -
+/// three simple roots on a circle around -s, an equilateral triangle, which no multiset over the root alphabet contains. The coefficients
+/// are products of small integers / dyadics and exact. Oracle: the root oracle, and the polynomial rebuilt from the returned values
+/// must be the given one ( one-to-one correspondence without knowing the roots: a value returned twice leaves another root out )
+fn equilateral_cubic_space(ctx: &Ctx) {
+    let leads: Vec<C> = vec![(1., 0.), (-2., 0.), (0., 1.), (0.5, 0.5)];
+    let shifts: Vec<C> = vec![(0., 0.), (1., 0.), (-1., 0.), (2., 0.), (0., 1.), (0.5, 0.), (1., -1.), (-3., 0.)];
+    let ts: Vec<C> = vec![(1., 0.), (-1., 0.), (8., 0.), (2., 0.), (0., 1.), (0., 27.), (-0.125, 0.), (1000., 0.), (3., -4.), (1., 1.)];
+    ctx.lattice(
+        "cubics a((x+s)^3 + t) with exactly vanishing first Cardano discriminant: 4 leads x 8 shifts x 10 constants x refine x entry point",
+        (leads.len() * shifts.len() * ts.len() * 4) as u64,
+        |idx| format!("#{}", idx),
+        |idx, acc| {
+            let refine = idx % 2 == 1;
+            let real_entry = (idx / 2) % 2 == 1;
+            let mut k = (idx / 4) as usize;
+            let t = ts[k % ts.len()];
+            k /= ts.len();
+            let s = shifts[k % shifts.len()];
+            let a = leads[k / shifts.len()];
+            let s2 = cmul(s, s);
+            let c: Vec<C> = vec![cmul(a, cadd(cmul(s2, s), t)), cmul(a, cmul((3., 0.), s2)), cmul(a, cmul((3., 0.), s)), a];
+            let all_real = c.iter().all(|z| z.1 == 0.0);
+            if real_entry && !all_real {
+                return;
+            }
+            acc.nontriv("cubic with b^2 = 3ac exactly and three simple roots");
+            let key = || format!("equilateral cubic coeffs={:?} refine={} via {}", c, refine, if real_entry { "Polynomial<f64>" } else { "Polynomial<Cmplx>" });
+            let mut local = Acc::new("t");
+            let res = catch(|| -> Result<(), String> {
+                let g: Vec<C> = if real_entry {
+                    Polynomial::new(c.iter().map(|z| z.0).collect::<Vec<f64>>()).roots(refine).vec.iter().map(|z| (z.real, z.imag)).collect()
+                } else {
+                    run_cmplx(&c, refine)
+                };
+                judge_roots(&c, &g, refine, false, &mut local, "equilateral cubic")?;
+                let back = expand(a, &g);
+                let amax = c.iter().map(|z| cabs(*z)).fold(0.0, f64::max);
+                let e = (0..4).map(|i| cabs(csub(back[i], c[i]))).fold(0.0, f64::max) / amax;
+                local.worst("rebuilt_polynomial_error_simple_roots", e, || format!("{:?}", c));
+                ensure!(e <= 1e-9, "the polynomial rebuilt from the returned values differs from the given one by {:e}: returned {:?}", e, g);
+                Ok(())
+            });
+            acc.merge_worst(local);
+            match res {
+                Ok(Ok(())) => {}
+                Ok(Err(e)) => acc.fail(idx, key(), e),
+                Err(p) => acc.fail(idx, key(), format!("unexpected panic: {}", p)),
+            }
+        },
+    );
+}
+
 /// listed inputs of the third bug hunt (hunt/C10/round3): Laguerre cycles that used up the iterations and left a non-root, which was
 /// accepted, deflated with and - with refinement - polished from the same start into the same cycle. Repaired by 6337919 / 6b77f24.
 fn hunt3_cases(ctx: &Ctx) {
@@ -1264,7 +1317,8 @@ fn main() {
     ctx.threshold("backward_error_unrefined_with_root_1e3", BE_UNREFINED_LARGE);
     ctx.threshold("backward_error_unrefined_closed_form_degree_1_2", BE_QUADRATIC);
     ctx.threshold("backward_error_unrefined_cardano_degree_3", BE_CARDANO);
-    ctx.require(&["repeated root", "root at zero", "non-real root", "iterative path (degree >= 4)", "closed-form path (degree <= 3)", "vanishing inner coefficient", "conjugate pair", "matched against the true roots", "degree 8..12", "coefficients of mixed scale (ratio up to 1e6)", "coefficient written through IndexMut after a roots() call", "history state of degree >= 4", "nearly binomial polynomial", "clustered roots", "multiple root with inexact coefficients", "all roots small"]);
+    ctx.threshold("rebuilt_polynomial_error_simple_roots", 1e-9);
+    ctx.require(&["repeated root", "root at zero", "non-real root", "iterative path (degree >= 4)", "closed-form path (degree <= 3)", "vanishing inner coefficient", "conjugate pair", "matched against the true roots", "degree 8..12", "coefficients of mixed scale (ratio up to 1e6)", "coefficient written through IndexMut after a roots() call", "history state of degree >= 4", "nearly binomial polynomial", "clustered roots", "multiple root with inexact coefficients", "all roots small", "cubic with b^2 = 3ac exactly and three simple roots"]);
     for k in 1..=ctx.pick(7, 11) {
         multiset_space(&ctx, k);
     }
@@ -1289,6 +1343,7 @@ fn main() {
     ring_known_case(&ctx);
     hunt4_cases(&ctx);
     tiny_part_cubic_space(&ctx);
+    equilateral_cubic_space(&ctx);
     hunt3_cases(&ctx);
     {
         let depth = ctx.pick(3, 4);
